@@ -62,16 +62,18 @@ mod neg_basic__permpar;
 mod agg_depth__pari;
 mod agg_user__ser;
 mod agg_bound_mix__ser;
-mod disj__ser;
-mod disj__src0;
-mod disj__perm2;
-mod disj_nested__exp;
-mod rep_expr__par;
-mod multi_head_disj__exppar;
-mod mac_basic__pari;
-mod mac_basic__src2;
-mod mac_capture__par;
-mod mac_nested__exppar;
+mod agg_empty_rel__ser;
+mod agg_const_args__exp;
+mod disj__mrt;
+mod disj__srcpar;
+mod disj_nested__par;
+mod pat_args__exppar;
+mod multi_head_disj__pari;
+mod mac_basic__ser;
+mod mac_basic__src0;
+mod mac_basic__exppar;
+mod mac_nested__pari;
+mod mac_disj__ser;
 
 fn lookup(name: &str) -> fn() -> Box<dyn Driven> {
    match name {
@@ -129,16 +131,18 @@ fn lookup(name: &str) -> fn() -> Box<dyn Driven> {
       "agg_depth__pari" => agg_depth__pari::make,
       "agg_user__ser" => agg_user__ser::make,
       "agg_bound_mix__ser" => agg_bound_mix__ser::make,
-      "disj__ser" => disj__ser::make,
-      "disj__src0" => disj__src0::make,
-      "disj__perm2" => disj__perm2::make,
-      "disj_nested__exp" => disj_nested__exp::make,
-      "rep_expr__par" => rep_expr__par::make,
-      "multi_head_disj__exppar" => multi_head_disj__exppar::make,
-      "mac_basic__pari" => mac_basic__pari::make,
-      "mac_basic__src2" => mac_basic__src2::make,
-      "mac_capture__par" => mac_capture__par::make,
-      "mac_nested__exppar" => mac_nested__exppar::make,
+      "agg_empty_rel__ser" => agg_empty_rel__ser::make,
+      "agg_const_args__exp" => agg_const_args__exp::make,
+      "disj__mrt" => disj__mrt::make,
+      "disj__srcpar" => disj__srcpar::make,
+      "disj_nested__par" => disj_nested__par::make,
+      "pat_args__exppar" => pat_args__exppar::make,
+      "multi_head_disj__pari" => multi_head_disj__pari::make,
+      "mac_basic__ser" => mac_basic__ser::make,
+      "mac_basic__src0" => mac_basic__src0::make,
+      "mac_basic__exppar" => mac_basic__exppar::make,
+      "mac_nested__pari" => mac_nested__pari::make,
+      "mac_disj__ser" => mac_disj__ser::make,
       _ => panic!("no such program variant in this shard: {}", name),
    }
 }
